@@ -366,6 +366,13 @@ def _(n, T):
     return [F(n, {"kind": "ptr_scalar", "T": T, "deref": None}, [P("a", "val", "int")])]
 
 
+@shape("template_lua", langs=("c++",), wraps=("lua",), doc="docs/templates.rst + docs/lua.rst: function template instantiated for types Lua can tell apart (number / boolean); defaults on a template-typed and on a plain parameter")
+def _(n, T):
+    return [F(n + "t", {"kind": "val", "T": "long"}, [P("a", "val", "ArgType"), P("b", "val", "ArgType", default="1"), P("k", "val", "int", default="10")],
+              template=["int", "bool"]),
+            F(n + "u", {"kind": "val", "T": "int"}, [P("a", "val", "ArgType"), P("k", "val", "int")], template=["int", "bool"])]
+
+
 @shape("template_ptr_res", langs=("c++",), wraps=("c", "fortran"), doc="templates.yaml + pointers.yaml: function template returning a pointer to its argument type")
 def _(n, T):
     return [F(n, {"kind": "ptr_scalar", "T": "ArgType", "deref": None}, [P("a", "val", "ArgType")], template=["int", "double"])]
@@ -375,6 +382,19 @@ def _(n, T):
 def _(n, T):
     return [F(n, {"kind": "val", "T": "Value"}, [P("v", "val", "Value"), P("k", "val", "Index")], tparams=["Value", "Index"],
               template=[["double", "int"], ["int", "long"], ["float", "short"]])]
+
+
+@shape("str_then_char", langs=("c", "c++"), wraps=("c", "fortran"), doc="strings.yaml: a by-value char after a string argument")
+def _(n, T):
+    return [F(n + "a", "int", [P("s", "cstr_in"), P("c", "val", "char")]),
+            F(n + "b", "void", [P("s", "cstr_inout"), P("c", "val", "char"), P("k", "val", "int")])]
+
+
+@shape("stdstr_then_char", langs=("c++",), wraps=("c", "fortran"), doc="strings.yaml: a by-value char after a std::string argument")
+def _(n, T):
+    return [F(n + "a", "int", [P("s", "str_cref"), P("c", "val", "char")]),
+            F(n + "b", "void", [P("s", "str_ref_inout"), P("c", "val", "char")]),
+            F(n + "c", "void", [P("s", "str_ref_out"), P("k", "val", "int"), P("c", "val", "char")])]
 
 
 @shape("char_scalar", langs=("c", "c++"), wraps=("c", "fortran"), doc="clibrary.yaml / strings.yaml passChar, returnChar")
@@ -388,6 +408,21 @@ def _(n, T):
 def _(n, T):
     return [F(n + "a", "int", [P("a", "val", "int")], ns=n + "_inner"),
             F(n + "b", "double", [P("a", "val", "double"), P("b", "val", "int")], ns=n + "_inner")]
+
+
+@shape("typedef_scoped", langs=("c++",), wraps=("c", "fortran"), doc="docs/typemaps.rst typedef + namespace.yaml: a typedef at global scope and a typedef of the same name inside a namespace that names another type")
+def _(n, T):
+    td = n + "_Idx"
+    tds = [(None, td, "int"), (n + "_inner", td, "long")]
+    return [F(n + "g", {"kind": "val", "T": "int", "spell": td}, [P("a", "val", "int", spell=td)], typedefs=tds),
+            F(n + "h", {"kind": "val", "T": "long", "spell": td}, [P("a", "val", "long", spell=td), P("b", "val", "int")], ns=n + "_inner", typedefs=tds)]
+
+
+@shape("typedef_plain", types=["long", "double", "unsigned int"], wraps=ALLW, doc="typedefs.yaml: a typedef of a native type used for arguments and results")
+def _(n, T):
+    td = n + "_Alias"
+    tds = [(None, td, T)]
+    return [F(n, {"kind": "val", "T": T, "spell": td}, [P("a", "val", T, spell=td), P("b", "val", "int")], typedefs=tds)]
 
 
 @shape("class_const", langs=("c++",), wraps=("c",), doc="docs/classes.rst: const and non-const member functions, an overload pair that differs only in const, a const method declared first")
